@@ -390,8 +390,10 @@ class RecorderPolicy(RepoPolicy):
             if used:
                 return Target('opaque', 'format-user-arguments:' + norm(call)[:60], raises=self.excm.ordinary, role='lib')
             # ... and so does turning into text the exception the wrapped function itself raised (its __str__ is user code)
+            # (repr() of an exception is taken not to raise: BaseException.__repr__ is rarely redefined, and the recorder's own fallback
+            # form of an unserialisable exception relies on it)
             names = {x.id for x in list(call.args) + [k.value for k in call.keywords] if isinstance(x, ast.Name)}
-            if names:
+            if names and not (isinstance(f, ast.Name) and f.id == 'repr'):
                 for t_ in [n for n in walk_own(frame.func.node) if isinstance(n, ast.Try)]:
                     for h_ in t_.handlers:
                         if h_.name in names and any(x is call for x in ast.walk(h_)):
